@@ -397,3 +397,11 @@ PROPS["C12"].update({"templates": PRELUDE + ["90_ec_linear.vrs"] + MAIN, "extern
                      "explanation": KANI_EXPL + " Verus (unbounded): UniformXo over any Crossover genome takes position i from the second parent exactly when the i-th coin — Rng::random::<bool>(), one draw "
                                     "per position — shows heads (loop invariant over the real body).",
                      "assumptions": KANI_ASSUME + ["Rng::random::<bool>() is a fair coin determined by the stream state (stand-in whose body is that call; fairness is rand's contract)"]})
+
+# C11: the Linear impls the mutators measure genomes with (Plushy / Vector / Bitstring size and gene_mut) have a Verus part; the mutators themselves
+# (iterator adapters with FnMut closures over &mut rng) stay with the bounded harnesses
+PROPS["C11"].update({"template_sets": [PROPS["C05"]["templates"], PRELUDE + ["90_ec_linear.vrs"] + MAIN], "expand": True, "extern": True,
+                     "steps": [run_verus_multi, run_kani_property],
+                     "explanation": KANI_EXPL + " Verus (unbounded): Plushy::size counts every gene (close markers included), Vector::size / Bitstring::size are the number of genes, gene_mut addresses "
+                                    "exactly the gene at the position — the `Linear` impls that WithOneOverLength, UMAD and the generators measure genomes with.",
+                     "assumptions": KANI_ASSUME + ["Vec::len / Vec::get_mut as vstd specifies"]})
